@@ -438,4 +438,56 @@ def modAssign (t : DurTy) (c d : Int) : Except Err Int := do
   let r ← cmod t.rep.promote c d
   .ok (t.rep.conv r)
 
+/-! ### time_point members, casts and comparisons: each forwards to the duration function on `time_since_epoch()`
+
+A `time_point<Clock, Duration>` is modelled by the tick count of its `_d`; the functions below are the bodies of
+time_point.hpp / time_point_cast.hpp / floor.hpp / ceil.hpp / round.hpp written with the duration functions of this model. -/
+
+/-- `time_point_cast<To>(tp)`: `time_point_t(duration_cast<ToDuration>(tp.time_since_epoch()))` -/
+def tpCast (to frm : DurTy) (c : Int) : Except Err Int := durationCast to frm c
+/-- `floor<To>(tp)`: `time_point<Clock, To>(floor<To>(tp.time_since_epoch()))` -/
+def tpFloor (to frm : DurTy) (c : Int) : Except Err Int := floorTo to frm c
+/-- `ceil<To>(tp)`: `time_point<Clock, To>{ceil<To>(tp.time_since_epoch())}` -/
+def tpCeil (to frm : DurTy) (c : Int) : Except Err Int := ceilTo to frm c
+/-- `round<To>(tp)`: `time_point<Clock, To>{round<To>(tp.time_since_epoch())}` -/
+def tpRound (to frm : DurTy) (c : Int) : Except Err Int := roundTo to frm c
+/-- `time_point(time_point<clock, Dur2> const& t) : _d{t.time_since_epoch()}` (`requires is_convertible_v<Dur2, duration>`):
+    the converting constructor of `duration` -/
+def tpConvert (to frm : DurTy) (c : Int) : Except Err Int := convert to frm c
+/-- `operator+=(duration const& d)`: `_d += d` -/
+def tpAddAssign (t : DurTy) (c d : Int) : Except Err Int := addAssign t c d
+/-- `operator-=(duration const& d)`: `_d -= d` -/
+def tpSubAssign (t : DurTy) (c d : Int) : Except Err Int := subAssign t c d
+/-- `operator++()` / `operator++(int)`: `++_d` / `time_point(_d++)` (the new value of `_d`) -/
+def tpInc (t : DurTy) (c : Int) : Except Err Int := addAssign t c 1
+/-- `operator--()` / `operator--(int)` -/
+def tpDec (t : DurTy) (c : Int) : Except Err Int := subAssign t c 1
+/-- `lhs.time_since_epoch() == rhs.time_since_epoch()` and the five others, each on the duration operator of the same name -/
+def tpEq (a b : DurTy) (x y : Int) : Except Err Bool := eq a b x y
+def tpNe (a b : DurTy) (x y : Int) : Except Err Bool := ne a b x y
+def tpLt (a b : DurTy) (x y : Int) : Except Err Bool := lt a b x y
+def tpLe (a b : DurTy) (x y : Int) : Except Err Bool := le a b x y
+def tpGt (a b : DurTy) (x y : Int) : Except Err Bool := gt a b x y
+def tpGe (a b : DurTy) (x y : Int) : Except Err Bool := ge a b x y
+
+/-! ### `zero`, `min`, `max` (duration_values.hpp) -/
+
+/-- `duration::zero()`: `duration(duration_values<rep>::zero())`, `Rep{}` -/
+def durZero (t : DurTy) : Int := t.rep.conv 0
+/-- `duration::min()`: `numeric_limits<Rep>::lowest()` -/
+def durMin (t : DurTy) : Int := t.rep.min
+/-- `duration::max()`: `numeric_limits<Rep>::max()` -/
+def durMax (t : DurTy) : Int := t.rep.max
+/-- `time_point::min()` / `max()`: `time_point(duration::min())` / `time_point(duration::max())` -/
+def tpMin (t : DurTy) : Int := durMin t
+def tpMax (t : DurTy) : Int := durMax t
+
+/-! ### the named duration types of duration.hpp -/
+
+/-- `nanoseconds … years`: representation (`int_least64_t` / `int_least32_t`) and the `ratio` template arguments as written -/
+def namedTypes : List (ITy × Int × Int) :=
+  [(⟨64, true⟩, 1, 1000000000), (⟨64, true⟩, 1, 1000000), (⟨64, true⟩, 1, 1000), (⟨64, true⟩, 1, 1),
+   (⟨32, true⟩, 60, 1), (⟨32, true⟩, 3600, 1), (⟨32, true⟩, 86400, 1), (⟨32, true⟩, 604800, 1),
+   (⟨32, true⟩, 2629746, 1), (⟨32, true⟩, 31556952, 1)]
+
 end Tetl.C12
